@@ -44,6 +44,10 @@ Qualified == { Lib("Nano", Perm(<< Cell("top", << I("a", "protolib.leaf", <<1, 2
                                   LeafQ, Cell("leaf", <<>>, << E(2, "Pin", "rect", R1, 0, "") >>, <<>>) >>, p)) : p \in Perms3 }
         \cup { Lib("Nano", << [Leaf EXCEPT !.name = "protolib.only"], Cell("protolib.top", << I("a", "protolib.only", <<0, 0>>, FALSE, -1) >>, <<>>, <<>>) >>),
                Lib("Nano", << [Leaf EXCEPT !.name = "lib/sub.cell"], Cell("t", << I("a", "lib/sub.cell", <<0, 0>>, FALSE, -1) >>, <<>>, <<>>) >>) }
+\* views named differently from their cells: an unrelated name, and the name of ANOTHER cell of the library
+WithL(cl, ln) == [k \in (DOMAIN cl) \cup {"lname"} |-> IF k = "lname" THEN ln ELSE cl[k]]
+ViewNames == { Lib("Nano", Perm(<< WithL(Cell("top", << I("a", "mid", <<1, 2>>, FALSE, 90), I("b", "leaf", <<3, 4>>, TRUE, -1) >>, <<>>, <<>>), "leaf"),
+                                  WithL(Cell("mid", << I("x", "leaf", <<0, 0>>, FALSE, 180) >>, <<>>, <<>>), "mid_layout_v2"), WithL(Leaf, "top") >>, p)) : p \in Perms3 }
 ShapeCases == { Lib(u, << Cell("s", <<>>, es, <<>>) >>) : u \in {"Micro", "Nano", "Angstrom"},
                   es \in { <<>>, << E(1, "Drawing", "rect", R2, 0, "") >>, << E(2, "Pin", "polygon", Pg, 0, "N") >>,
                            << E(1, "Pin", "path", Pa, 7, "p") >>,
@@ -94,7 +98,7 @@ RandLib(i) == LET cs == << RandCellP("r_top", <<"r_a", "r_b", "r_c", "r_leaf">>)
                   pm == RandomElement(Perms5)
               IN Lib(RandomElement({"Micro", "Nano", "Angstrom"}), [k \in 1..5 |-> cs[pm[k]]])
 RandLibs == { RandLib(i) : i \in 1..NRand }
-Libs == InstCases \cup Dags \cup Qualified \cup ShapeCases \cup AbsCases \cup PicoCase \cup RandLibs
+Libs == InstCases \cup Dags \cup Qualified \cup ViewNames \cup ShapeCases \cup AbsCases \cup PicoCase \cup RandLibs
 Init == c \in Libs
 Next == UNCHANGED c
 Spec == Init /\ [][Next]_c
